@@ -70,6 +70,10 @@ class FakeDevice:
     def fresh_session(self, rnd=None) -> bytes:
         """A session id never issued before by this device (so a stale one is unmistakable)."""
         n = next(self._session_counter)
+        if rnd is not None and rnd.random() < 0.04:
+            from ..gen import coincidence
+
+            return coincidence(rnd, 4)      # a session id that happens to contain one of the protocol's own constants
         if rnd is not None and rnd.random() < 0.03:
             # boundary values a device may legitimately hand out (they can repeat; most ids stay unique)
             return rnd.choice([bytes(4), b"\xff" * 4, bytes.fromhex("fef0f0fe"), bytes.fromhex("00000001"), bytes.fromhex("30303030")])
